@@ -243,6 +243,9 @@ def r6(ctx, rep):
             looked = x["r"] if x["m"] != "and_is" else x["a"][0]
             accepts_end = any(c.get("k") == "call" and last_seg(show(c["f"])) == "end" and not c["a"] for c in walk(looked)) or \
                 any(c.get("k") == "call" and show(c["f"]) == "end_expr" for c in walk(looked))
+            if x["m"] == "not":
+                # a negative look-ahead succeeds at the end of input exactly when what it negates does not
+                accepts_end = not accepts_end
             # climb: is the look-ahead followed, inside the same combinator chain, by something that consumes input?
             def climbs(cur, depth=0):
                 while id(cur) in par:
